@@ -20,7 +20,8 @@ CF = 'amq_protocol::protocol::confirm::'
 # FieldTable is a type alias of BTreeMap<ShortString, AMQPValue>: an empty argument table
 EMPTY_TABLE = 'std::collections::BTreeMap::new()'
 
-UNIT_MAP = 'std::result::Result::map(REPLY, |$c0| ())'
+# canonical return forms (engine/amqlint/wire.py::canon_ret): x.map(|v| body) == Ok(body[v := x?])
+UNIT_MAP = 'Ok(())'
 
 
 def row(fn, params, sink, on, cls, method, fields, reply=None, ret=None, asserts=None, public=True, pre=None):
@@ -88,22 +89,22 @@ ROWS = [
         {'ticket': '0', 'queue': 'queue', 'exchange': 'exchange', 'routing_key': 'routing_key', 'arguments': 'arguments'},
         Q + 'UnbindOk', UNIT_MAP),
     row('channel::Channel::queue_purge', ['self', 'queue'], 'call', 'self', Q, 'Purge',
-        {'ticket': '0', 'queue': 'queue', 'nowait': 'false'}, Q + 'PurgeOk', 'std::result::Result::map(REPLY, |$c0| $c0.message_count)'),
+        {'ticket': '0', 'queue': 'queue', 'nowait': 'false'}, Q + 'PurgeOk', 'Ok(REPLY?.message_count)'),
     row('channel::Channel::queue_purge_nowait', ['self', 'queue'], 'nowait', 'self', Q, 'Purge',
         {'ticket': '0', 'queue': 'queue', 'nowait': 'true'}, None, 'SINK'),
     row('channel::Channel::queue_delete', ['self', 'queue', 'options'], 'call', 'self', Q, 'Delete',
         {'ticket': '0', 'queue': 'queue', 'if_unused': 'options.if_unused', 'if_empty': 'options.if_empty', 'nowait': 'false'},
-        Q + 'DeleteOk', 'std::result::Result::map(REPLY, |$c0| $c0.message_count)'),
+        Q + 'DeleteOk', 'Ok(REPLY?.message_count)'),
     row('channel::Channel::queue_delete_nowait', ['self', 'queue', 'options'], 'nowait', 'self', Q, 'Delete',
         {'ticket': '0', 'queue': 'queue', 'if_unused': 'options.if_unused', 'if_empty': 'options.if_empty', 'nowait': 'true'},
         None, 'SINK'),
     row('channel::Channel::exchange_declare', ['self', 'type_', 'exchange', 'options'], 'call', 'self', X, 'Declare',
-        xdeclare('false', 'false'), X + 'DeclareOk', 'std::result::Result::map(REPLY, |$c0| exchange::Exchange{channel: self, name: exchange})'),
+        xdeclare('false', 'false'), X + 'DeclareOk', 'Ok(exchange::Exchange{channel: self, name: exchange})'),
     row('channel::Channel::exchange_declare_nowait', ['self', 'type_', 'exchange', 'options'], 'nowait', 'self', X, 'Declare',
-        xdeclare('false', 'true'), None, 'std::result::Result::map(SINK, |$c0| exchange::Exchange{channel: self, name: exchange})'),
+        xdeclare('false', 'true'), None, 'Ok(exchange::Exchange{channel: self, name: exchange})'),
     row('channel::Channel::exchange_declare_passive', ['self', 'exchange'], 'call', 'self', X, 'Declare',
         xdeclare('true', 'false', None, 'exchange::ExchangeType::Direct'), X + 'DeclareOk',
-        'std::result::Result::map(REPLY, |$c0| exchange::Exchange{channel: self, name: exchange})'),
+        'Ok(exchange::Exchange{channel: self, name: exchange})'),
     row('channel::Channel::exchange_bind', ['self', 'destination', 'source', 'routing_key', 'arguments'], 'call', 'self', X, 'Bind',
         xbind('false'), X + 'BindOk', UNIT_MAP),
     row('channel::Channel::exchange_bind_nowait', ['self', 'destination', 'source', 'routing_key', 'arguments'], 'nowait', 'self', X, 'Bind',
@@ -147,12 +148,12 @@ ROWS = [
         {'ticket': '0', 'queue': 'self.name', 'exchange': 'exchange.name', 'routing_key': 'routing_key', 'arguments': 'arguments'},
         Q + 'UnbindOk', UNIT_MAP),
     row('queue::Queue::purge', ['self'], 'call', 'self.channel', Q, 'Purge',
-        {'ticket': '0', 'queue': 'self.name', 'nowait': 'false'}, Q + 'PurgeOk', 'std::result::Result::map(REPLY, |$c0| $c0.message_count)'),
+        {'ticket': '0', 'queue': 'self.name', 'nowait': 'false'}, Q + 'PurgeOk', 'Ok(REPLY?.message_count)'),
     row('queue::Queue::purge_nowait', ['self'], 'nowait', 'self.channel', Q, 'Purge',
         {'ticket': '0', 'queue': 'self.name', 'nowait': 'true'}, None, 'SINK'),
     row('queue::Queue::delete', ['self', 'options'], 'call', 'self.channel', Q, 'Delete',
         {'ticket': '0', 'queue': 'self.name', 'if_unused': 'options.if_unused', 'if_empty': 'options.if_empty', 'nowait': 'false'},
-        Q + 'DeleteOk', 'std::result::Result::map(REPLY, |$c0| $c0.message_count)'),
+        Q + 'DeleteOk', 'Ok(REPLY?.message_count)'),
     row('queue::Queue::delete_nowait', ['self', 'options'], 'nowait', 'self.channel', Q, 'Delete',
         {'ticket': '0', 'queue': 'self.name', 'if_unused': 'options.if_unused', 'if_empty': 'options.if_empty', 'nowait': 'true'},
         None, 'SINK'),
